@@ -185,3 +185,63 @@ def st_call_sequence(be, hiN, kinds=None, configs=None):
 FACETS.append(Facet('np/call-sequences', f_call_sequence, strategy=lambda t: st_call_sequence('np', 4), examples={'quick': 1500, 'thorough': 60000}, shards={'quick': 3, 'thorough': 12}))
 FACETS.append(Facet('torch/call-sequences', f_call_sequence, strategy=lambda t: st_call_sequence('torch', 3, ['rot', 'rotc', 'fmap', 'bmap'], c09.TORCH_CONFIGS),
                     examples={'quick': 150, 'thorough': 6000}, shards={'quick': 1, 'thorough': 4}, backend='torch'))
+
+
+# ---- one map object through a history: used in a gate (its inverse gets computed), changed in place, used in a *new* gate ----------------
+def f_map_object_history(case):
+    """A user keeps one CliffordMap object, builds a gate from it, runs it both ways, then updates the map in place (rotate_by / transform_by /
+    sign flip) and builds a new gate from the same object: the new gate's backward must invert the map's *current* value."""
+    be, N = case['be'], case['N']
+    Bk = B.backend(be)
+    cm = Bk.mods()['c']
+    cur = C.dec_clifford(case['rows'])
+    M = Bk.cmap(cur)
+    q = list(range(N))
+    L, K = ref.parse_list(case['ops'])
+    nedit = 0
+    for i, stp in enumerate(case['steps']):
+        t = stp['t']
+        if t == 'rotate':
+            gl, gk = ref.parse(stp['gen'])
+            M.rotate_by(Bk.pauli(gl, gk)); nedit += 1
+            cur = ref.RefClifford(*ref.rotate_rule(cur.L, cur.K, gl, gk))
+        elif t == 'transform':
+            o = C.dec_clifford(stp['rows'])
+            M.transform_by(Bk.cmap(o)); nedit += 1
+            cur = cur.compose(o)
+        elif t == 'inverse':
+            got = ref.RefClifford(*Bk.read_list(M.inverse()))
+            check(got.key() == cur.inverse().key(), 'step %d: inverse() of the map after %d in-place changes is %s expected %s' % (i, nedit, got.rows(), cur.inverse().rows()), 'object-inverse')
+        else:
+            g = cm.CliffordGate(*q)
+            (g.set_forward_map if stp['as'] == 'f' else g.set_backward_map)(M)
+            if stp['compile']:
+                g.compile()
+            fwd = cur if stp['as'] == 'f' else cur.inverse()
+            for d in stp['calls']:
+                obj = Bk.plist(L, K)
+                (g.forward if d == 'f' else g.backward)(obj)
+                want = (fwd if d == 'f' else fwd.inverse()).apply(L, K)
+                C.expect_list(Bk.read_list(obj), want, 'step %d: new gate from the map object (set as %s map, after %d in-place changes), run %s' % (
+                    i, 'forward' if stp['as'] == 'f' else 'backward', nedit, 'forward' if d == 'f' else 'backward'), 'object-gate')
+            check(ref.RefClifford(*Bk.read_list(M)).key() == cur.key(), 'step %d: the map object was changed by the gate' % i, 'object-modified')
+    ts = [x['t'] for x in case['steps']]
+    uses = [i for i, x in enumerate(ts) if x in ('gate', 'inverse')]
+    nt = len(uses) >= 2 and any(x in ('rotate', 'transform') for x in ts[uses[0]:uses[-1]])
+    return {'nt': nt, 'labels': ['N=%d' % N, 'edits=%d' % min(nedit, 5)]}
+
+
+def st_map_object_history(be, hiN):
+    def inner(N):
+        step = st.one_of(st.fixed_dictionaries({'t': st.just('gate'), 'as': st.sampled_from(['f', 'b']), 'compile': st.booleans(), 'calls': st.sampled_from(['b', 'fb', 'bf', 'bfb'])}),
+                         st.fixed_dictionaries({'t': st.just('gate'), 'as': st.sampled_from(['f', 'b']), 'compile': st.booleans(), 'calls': st.sampled_from(['b', 'fb', 'bf', 'bfb'])}),
+                         st.just({'t': 'inverse'}),
+                         st.fixed_dictionaries({'t': st.just('rotate'), 'gen': gen.st_herm(N, nonidentity=True)}),
+                         st.fixed_dictionaries({'t': st.just('transform'), 'rows': gen.st_clifford_rows(N)}))
+        return st.fixed_dictionaries({'be': st.just(be), 'N': st.just(N), 'rows': gen.st_clifford_rows(N), 'ops': gen.st_pauli_list(N, 1, 5),
+                                      'steps': st.lists(step, min_size=2, max_size=8)})
+    return st.integers(1, hiN).flatmap(inner)
+
+
+FACETS.append(Facet('np/map-object-histories', f_map_object_history, strategy=lambda t: st_map_object_history('np', 3), examples={'quick': 800, 'thorough': 30000}, shards={'quick': 2, 'thorough': 8}))
+FACETS.append(Facet('torch/map-object-histories', f_map_object_history, strategy=lambda t: st_map_object_history('torch', 3), examples={'quick': 300, 'thorough': 10000}, shards={'quick': 1, 'thorough': 4}, backend='torch'))
